@@ -49,7 +49,10 @@ def arg_or_kw(call, pos, name):
 
 
 def where(func_or_cls, node=None):
-    line = node.lineno if node is not None and hasattr(node, 'lineno') else func_or_cls.node.lineno
+    if node is not None and hasattr(node, 'lineno'):
+        line = getattr(node, '_orig_lineno', node.lineno)
+    else:
+        line = getattr(func_or_cls, 'raw_node', func_or_cls.node).lineno
     return '%s:%d' % (func_or_cls.module.relpath, line)
 
 
